@@ -18,6 +18,7 @@ pub mod c06;
 pub mod c07;
 pub mod c11;
 pub mod c12;
+pub mod c13;
 pub mod c14;
 pub mod c16;
 pub mod c17;
